@@ -89,20 +89,20 @@ def proof_step(pid, log, area='base'):
         if os.path.exists(srcs[0]) and (not os.path.exists(drv) or any(os.path.getmtime(s) > os.path.getmtime(drv) for s in srcs)):
             rc2, out2 = sh('sh %s %s' % (os.path.join(VERIF, 'ocaml', 'build.sh'), area))
             if rc2 != 0: res['errors'].append('ocaml driver build failed: ' + out2[-800:])
-        # per-theorem assumptions: re-run the property file alone
+        # per-theorem assumptions: a generated file asks the kernel for the assumptions of every theorem of the property file
         pf = os.path.join(COQ, 'Properties_%s.v' % pid)
         names = re.findall(r'^\s*Theorem\s+(\w+)', strip_comments(open(pf).read()), re.M)
         res['obligations'] = len(names)
         tmpd = tempfile.mkdtemp(prefix='cjprop_')
         try:
-            rc, out = sh('timeout 600 coqc -Q . CJ -o %s/Properties_%s.vo Properties_%s.v' % (tmpd, pid, pid), cwd=COQ)
+            with open(os.path.join(tmpd, 'PA.v'), 'w') as f:
+                f.write('From CJ Require Import Properties_%s.\n' % pid)
+                for nme in names: f.write('Print Assumptions Properties_%s.%s.\n' % (pid, nme))
+            rc, out = sh('timeout 900 coqc -Q %s CJ PA.v' % COQ, cwd=tmpd) if built else (1, 'Properties_%s.vo was not built' % pid)
         finally:
             shutil.rmtree(tmpd, ignore_errors=True)
         if rc != 0:
-            res['errors'].append('Properties_%s.v does not check: %s' % (pid, out[-1500:]))
-            # which theorem? the error message carries the line
-            m = re.search(r'line (\d+)', out)
-            res['failing_line'] = int(m.group(1)) if m else None
+            res['errors'].append('Properties_%s does not check: %s' % (pid, out[-1500:]))
         blocks = re.split(r'(?=Closed under the global context|Axioms:)', out)
         blocks = [b for b in blocks if b.startswith('Closed under') or b.startswith('Axioms:')]
         for i, nme in enumerate(names):
